@@ -19,6 +19,8 @@ pub enum Step {
     Go { depth: u8, clocks: Option<(u32, u32)> },
     /// a search that lasts longer than a second (fixed move time)
     GoMoveTime { ms: u32 },
+    /// the standard `debug on` / `debug off` command
+    Debug { on: bool },
 }
 
 #[derive(Serialize, Deserialize, Clone, Debug)]
@@ -76,6 +78,9 @@ fn from_tape(data: &[u16], spins: &[Spin]) -> Vec<Step> {
     let n = 2 + t.pick(11);
     let mut steps = vec![];
     let mut have_position = false;
+    if t.pick(3) == 0 {
+        steps.push(Step::Debug { on: true });
+    }
     for _ in 0..n {
         match t.pick(8) {
             0 | 1 | 2 if !spins.is_empty() => {
@@ -100,7 +105,11 @@ fn from_tape(data: &[u16], spins: &[Spin]) -> Vec<Step> {
                     }
                 }
             }
-            3 => steps.push(if t.pick(2) == 0 { Step::IsReady } else { Step::NewGame }),
+            3 => steps.push(match t.pick(5) {
+                0 | 1 => Step::IsReady,
+                2 | 3 => Step::NewGame,
+                _ => Step::Debug { on: t.pick(2) == 0 },
+            }),
             4 => {
                 if let Some((fen, moves, _, _)) = gen_game_opts(&mut t, 2, 8, false) {
                     steps.push(Step::Position { fen, moves });
@@ -163,6 +172,10 @@ fn run_session(steps: &[Step], spins: &[Spin], st: &mut Stats) -> Result<(), Fai
                         Err(x) => return Err(fail(&e, "option:no_readyok", x)),
                     }
                 }
+            }
+            Step::Debug { on } => {
+                e.send(if *on { "debug on" } else { "debug off" }).map_err(|x| fail(&e, "option:engine_died", x))?;
+                st.class("debug_mode_switched");
             }
             Step::NewGame => {
                 e.send("ucinewgame").map_err(|x| fail(&e, "option:engine_died", x))?;
@@ -379,7 +392,11 @@ pub fn run(run: &mut Run) -> &'static str {
                     (Some(h), _) => h.min,
                     (None, _) => 1,
                 };
-                let mut steps = vec![Step::Set { option: "Hash".into(), value: v }];
+                let mut steps = vec![];
+                if t.pick(3) == 0 {
+                    steps.push(Step::Debug { on: true });
+                }
+                steps.push(Step::Set { option: "Hash".into(), value: v });
                 for _ in 0..6 {
                     if let Some((fen, moves, _, _)) = gen_game_opts(&mut t, 0, 6, false) {
                         steps.push(Step::Position { fen, moves });
